@@ -512,6 +512,7 @@ struct Explorer {
   }
 
   // ---- (1) all weight sequences, depth first, carrying the distribution
+  int wset[3] = {0, 1, 2};   // indices into WEIGHTS of the three weights a stream walk draws from
   void dfs(const Dist& d, std::vector<size_t>& path, int len, int maxlen, int k) {
     if (!pt.complete() || d.empty()) return;
     const bool deepest = len == maxlen;
@@ -521,9 +522,10 @@ struct Explorer {
     const bool ser_continue = len > 0 && (quick ? len == k + 1 : len <= k + 2);
     Dist ds; std::vector<size_t> ps = path;
     if (ser_continue) ds = step(d, ps, (len & 1) ? sys.OP_SER[0] : sys.OP_SST[0]);
-    for (int w = 0; w < 3; ++w) {
+    for (int wi = 0; wi < 3; ++wi) {
+      const int w = wset[wi];
       std::vector<size_t> p2 = path; Dist d2 = step(d, p2, sys.OP_UPD[0][w]);
-      if (ser_continue && w == (int)(nodes % 3)) {
+      if (ser_continue && wi == (int)(nodes % 3)) {
         std::vector<size_t> p3 = ps; Dist d3 = step(ds, p3, sys.OP_UPD[0][w]);
         same_distribution(d2, d3, "ser:restored-sketch-continues-to-same-distribution", p3);
       }
@@ -541,7 +543,7 @@ struct Explorer {
       if (j == prefix.size()) { dfs(d, path, (int)j, maxlen, k); break; }
       bool mine = true; for (size_t i = j; i < prefix.size(); ++i) if (prefix[i] != 0) mine = false;
       if (mine) node_checks(d, path, true, j > 0 ? 0 : -1);
-      d = step(d, path, sys.OP_UPD[0][prefix[j]]);
+      d = step(d, path, sys.OP_UPD[0][wset[prefix[j]]]);
     }
     finish("stream k=" + str(k) + " prefix=" + ops_str(sys, std::vector<size_t>(path.begin(), path.begin() + 1 + (long)prefix.size())) + " maxlen=" + str(maxlen));
   }
@@ -764,6 +766,13 @@ static void add_tasks(std::vector<Task>& tasks, const Config& cfg, const bool q,
       t.fn = [A, B, q, &cfg](Report& rep) { Explorer ex(rep, cfg, GRID, q); ex.merge_pair(A, B, 1, false); ex.finish("merge " + A.label() + " <- " + B.label() + " (lighter operand holds the partial item and the heaviest weight), lvalue and rvalue, then 1 further update"); };
       tasks.push_back(t);
     }
+  }
+  // streams over the non-dyadic weights {1,3,11}: every sequence up to length 4 (quick, k=3) / 5 (thorough, k=2 and 3)
+  for (int k = 3; k >= (q ? 3 : 2); --k) for (int pi = 2; pi >= 0; --pi) {
+    std::vector<int> prefix(1, pi); const int maxlen = q ? 4 : 5;
+    Task t; t.name = pre + "stream-nondyadic/k" + str(k) + "/p" + str(pi);
+    t.fn = [k, prefix, maxlen, q, &cfg](Report& rep) { Explorer ex(rep, cfg, GRID, q); ex.wset[0] = 0; ex.wset[1] = 3; ex.wset[2] = 4; ex.run_stream(k, prefix, maxlen); };
+    tasks.push_back(t);
   }
   // non-dyadic weights: rho, the average weight of the merged-in items and C are no longer exact quotients, C drifts by an ulp and the
   // case analysis on the fractional parts meets sums that round to an integer (each pair in both directions; the first two pairs merge
